@@ -428,7 +428,9 @@ def run_optimisers(ctx, scratch, rng, quick):
         if opts['shuffle_nodes']:
             opts['random_state'] = rng.randrange(1000)
         store = None
-        if wk != 'dyadic' and rng.random() < 0.2:
+        if wk == 'unit' and rng.random() < 0.5:
+            store = 'bool'            # an unweighted graph as the loaders return it (seed C06_11: a shortcut taken for dtype bool only)
+        elif wk != 'dyadic' and rng.random() < 0.2:
             # integer weights in other units (x40 / x20: modularity does not depend on the unit), stored in a narrow integer type in
             # which the sum of two reciprocal weights does not fit (uint8: 2 x 160 = 64 mod 256; int8: 2 x 80 = -96)
             store, mult = rng.choice([('uint8', 40), ('int8', 20), ('int32', 40), ('float32', 40)])
